@@ -318,20 +318,20 @@ def check_S4(ctx, facts):
     ctx.floor('C01.S4', 'set-mutating handlers', n, 4)
 
 
-def check_S6(ctx, facts):
+def check_S6(ctx, facts, rule='C01.S6'):
     """the change stamp a peer is handed together with a state snapshot is read BEFORE the snapshot is taken: the poller
     records that stamp as 'synced up to here', so a write that lands between the two reads must be in the snapshot"""
     hs = [b for b in facts.bodies.values() if b.crate == 'datacake_eventual_consistency' and b.kind == 'coroutine' and not b.d['promoted']
           and 'Handler' in (b.impl or '') and 'GetState' in (b.impl or '') and b.name.endswith('on_message::{closure#0}')]
     if len(hs) != 1:
-        ctx.bad('C01.S6', 'GetState|anchor', '', 'GetState handler not found (fail closed)')
+        ctx.bad(rule, 'GetState|anchor', '', 'GetState handler not found (fail closed)')
         return
     b = hs[0]
     sends = [(bb, t) for bb, t in b.calls() if cname(t) and cname(t).endswith('ActorMailbox::send')]
     stamp = [bb for bb, t in sends if any('LastUpdated' in g for g in (t.get('gargs') or []))]
     snap = [bb for bb, t in sends if any(g.endswith('::Serialize') or g == 'Serialize' for g in (t.get('gargs') or []))]
     good = bool(stamp) and bool(snap) and all(any(b.dominates(s_, x) for s_ in stamp) for x in snap)
-    ctx.ob('C01.S6', 'GetState|stamp-before-snapshot', good, site(b),
+    ctx.ob(rule, 'GetState|stamp-before-snapshot', good, site(b),
            'the keyspace\'s change stamp is read before the state snapshot is taken (the stamp a peer records as synced never exceeds the snapshot)' if good else
            'the state snapshot is taken before (or without) reading the change stamp: a write that reaches the keyspace between the two reads is covered by the '
            'stamp the peer records as synced but missing from the snapshot, so no later repair exchange fetches it')
